@@ -57,8 +57,8 @@ def run_check(tier, seed, replay=None):
             c.violation("stream:" + kind, "analysis under the estimated parameters does not reconstruct (%s) on %s" % (
                 kind, x["reset"].get("label")), {"kind": "deflate-hex", "hex": case.get("hex"), "event": ev})
         else:
-            raise ToolError("Trace_Stream and the implementation disagree on the operation grammar (%s) at %s; "
-                            "the specification needs attention" % (kind, json.dumps(ev)[:300]))
+            c.defer_tool_error("Trace_Stream and the implementation disagree on the operation grammar (%s) at %s; "
+                               "the specification needs attention" % (kind, json.dumps(ev)[:300]))
     return c.finish(rule="evaluations = (parameter vector, stream) pairs through the hook roundtrip_with_params: "
                          "every vector MC_Params enumerates (all hash algorithms, add policies, greedy/lazy, "
                          "boundary values of every numeric field) x compressor-made and generated streams; oracle: Err, "
